@@ -266,12 +266,24 @@ func c06One(r *Run, d *Driver, dir string, idx int, c c06Case) {
 			r.Violate("C06 differs-from-reference "+diff, fmt.Sprintf("%s (%s): %s", c.Desc, enc, diff), replay)
 		}
 	}
-	// ---- correspondence with the Lean model (DER only; PEM framing is covered by the pem stream) --
+	// ---- correspondence with the Lean model: the model decides itself whether the file is PEM and what the ASN.1 reader gets
+	// (`rd file`), then reads that (oracle completion on the model's bytes) ---------------------------------------------------
 	if d == nil {
 		return
 	}
 	if len(der) > 400000 {
 		r.Count("model:skipped-large")
+		return
+	}
+	fileOp := "rd file " + hexs(file)
+	fans, err := d.Ask(fileOp)
+	if err != nil {
+		r.Violate("C06 driver-failed", err.Error(), nil)
+		return
+	}
+	wantFile := fmt.Sprintf("pem=%v der=%s", c.PEM != 0, hexs(der))
+	r.Op(fileOp, wantFile) // what the real pipeline delivers for a well-formed file: the DER bytes (checked against the reference above)
+	if fans != wantFile {
 		return
 	}
 	m, err := modelReadCRL(d, der)
